@@ -207,11 +207,12 @@ fn run_filters(
             return;
         }
     };
-    let magic = pcap_in.get_magic_number_raw();
     let pcap_out = if skip_pcap {
         None
     } else {
-        let out = match Pcap::new_with_magic(Rc::new(FileHandle::Stdout), magic) {
+        // the output stream carries the global header of the input stream
+        let header = pcap_in.header.borrow().clone();
+        let out = match Pcap::new_with_header(Rc::new(FileHandle::Stdout), header) {
             Ok(pcap) => pcap,
             Err(err) => {
                 eprintln!("{}", err);
